@@ -5,6 +5,9 @@ From ZV.C18 Require Import ModelFiber ProofsFiber ProofsFiberReduce.
 From ZV.C18 Require Import ModelPipe ProofsPipe ProofsPipeStream.
 From ZV.C18 Require Import ModelExec ProofsExec ProofsExec2.
 From ZV.C18 Require Import ModelGlobalPar ProofsGlobalPar.
+From ZV.C18 Require Import ModelYield ProofsYield ProofsBuffered.
+From ZV.C18 Require Import ModelStore ProofsStore.
+From ZV.C18 Require Import ModelLife ProofsLife.
 (* the dispatcher the harness-generated case files import: listed here so that building this file builds it *)
 From ZV.C18 Require ModelCases.
 From Coq Require Import Permutation.
@@ -695,3 +698,227 @@ Check global_reduce_error_surfaces :
     0 < ncpu -> In x xs -> (forall a, op a x = None) ->
     forall r, g_reduce_result op ident ncpu xs (pool_run (g_reduce_jobs op ident ncpu xs) maxf steps) = Some r -> r = None.
 Print Assumptions global_reduce_error_surfaces.
+
+(* the yielding loops of fiber_yield.rs as written (run_with_yield, process_vec_yielding, YieldingIterator::for_each / collect), for every
+   function, input, yield interval (0 included) and initial budget: the result is the function applied in input order (Err as soon as an
+   item fails), the function is called exactly on the items up to and including the first failing one, in order, each once *)
+Theorem yield_loops_are_map :
+  forall (T R : Type) (f : T -> option R) (init interval : N) (xs : list T),
+    (fst (fst (yi_for_each init interval f xs)) = map_opt f xs /\
+     calls (snd (yi_for_each init interval f xs)) = upto_fail f xs) /\
+    (fst (fst (process_vec_yielding init interval f xs)) = map_opt f xs /\
+     calls (snd (process_vec_yielding init interval f xs)) = upto_fail f xs) /\
+    (fst (fst (yi_collect init interval xs)) = Some xs /\ calls (snd (yi_collect init interval xs)) = xs) /\
+    (forall (h : N -> option R) (n : N),
+       let idx := map N.of_nat (seq 0 (N.to_nat n)) in
+       fst (fst (run_with_yield init n interval h)) = map_opt h idx /\
+       calls (snd (run_with_yield init n interval h)) = upto_fail h idx) /\
+    (forall g : T -> R, (forall x, In x xs -> f x = Some (g x)) -> map_opt f xs = Some (map g xs)) /\
+    (forall x, In x xs -> f x = None -> map_opt f xs = None).
+Proof. exact yield_loops_are_map_proof. Qed.
+Check yield_loops_are_map :
+  forall (T R : Type) (f : T -> option R) (init interval : N) (xs : list T),
+    (fst (fst (yi_for_each init interval f xs)) = map_opt f xs /\
+     calls (snd (yi_for_each init interval f xs)) = upto_fail f xs) /\
+    (fst (fst (process_vec_yielding init interval f xs)) = map_opt f xs /\
+     calls (snd (process_vec_yielding init interval f xs)) = upto_fail f xs) /\
+    (fst (fst (yi_collect init interval xs)) = Some xs /\ calls (snd (yi_collect init interval xs)) = xs) /\
+    (forall (h : N -> option R) (n : N),
+       let idx := map N.of_nat (seq 0 (N.to_nat n)) in
+       fst (fst (run_with_yield init n interval h)) = map_opt h idx /\
+       calls (snd (run_with_yield init n interval h)) = upto_fail h idx) /\
+    (forall g : T -> R, (forall x, In x xs -> f x = Some (g x)) -> map_opt f xs = Some (map g xs)) /\
+    (forall x, In x xs -> f x = None -> map_opt f xs = None).
+Print Assumptions yield_loops_are_map.
+
+(* every suspension of these loops is one `tokio::task::yield_now().await` that is counted once (total_yields = number of
+   suspensions in the trace: a loop over n items is suspended finitely often and always gets to its next item), and the u8 yield budget
+   never leaves [0, initial_budget] (no underflow of `current_budget - 1`) *)
+Theorem yield_points_return :
+  forall (T R : Type) (f : T -> option R) (init interval : N) (xs : list T),
+    (let '(_, p, tr) := yi_for_each init interval f xs in fy_total (yp_fy p) = yields tr /\ fy_budget (yp_fy p) <= init) /\
+    (let '(_, (_, p), tr) := process_vec_yielding init interval f xs in fy_total (yp_fy p) = yields tr /\ fy_budget (yp_fy p) <= init) /\
+    (let '(_, (_, p), tr) := yi_collect init interval xs in fy_total (yp_fy p) = yields tr /\ fy_budget (yp_fy p) <= init) /\
+    (forall (h : N -> option R) (n : N),
+       let '(_, p, tr) := run_with_yield init n interval h in fy_total (yp_fy p) = yields tr /\ fy_budget (yp_fy p) <= init).
+Proof. exact yield_points_return_proof. Qed.
+Check yield_points_return :
+  forall (T R : Type) (f : T -> option R) (init interval : N) (xs : list T),
+    (let '(_, p, tr) := yi_for_each init interval f xs in fy_total (yp_fy p) = yields tr /\ fy_budget (yp_fy p) <= init) /\
+    (let '(_, (_, p), tr) := process_vec_yielding init interval f xs in fy_total (yp_fy p) = yields tr /\ fy_budget (yp_fy p) <= init) /\
+    (let '(_, (_, p), tr) := yi_collect init interval xs in fy_total (yp_fy p) = yields tr /\ fy_budget (yp_fy p) <= init) /\
+    (forall (h : N -> option R) (n : N),
+       let '(_, p, tr) := run_with_yield init n interval h in fy_total (yp_fy p) = yields tr /\ fy_budget (yp_fy p) <= init).
+Print Assumptions yield_points_return.
+
+(* FiberIoUtils::batch_process: the chunks handed to the processor concatenate to the input (none empty, none longer than
+   max(1, batch_size)), the result is the concatenation of the processor's results in chunk order, the processor is not called after a
+   failing chunk, and for an item-wise processor the result is the item function applied in input order *)
+Theorem batch_process_is_concat :
+  forall (T R : Type) (bs : N) (proc : list T -> option (list R)) (xs : list T),
+    concat (bp_chunks bs xs) = xs /\
+    Forall (fun c => c <> [] /\ nlen c <= ival bs) (bp_chunks bs xs) /\
+    fst (batch_process bs proc xs) =
+      match map_opt proc (bp_chunks bs xs) with Some parts => Some (concat parts) | None => None end /\
+    calls (snd (batch_process bs proc xs)) = upto_fail proc (bp_chunks bs xs) /\
+    (forall g : T -> option R, (forall c, proc c = map_opt g c) -> fst (batch_process bs proc xs) = map_opt g xs).
+Proof. exact batch_process_is_concat_proof. Qed.
+Check batch_process_is_concat :
+  forall (T R : Type) (bs : N) (proc : list T -> option (list R)) (xs : list T),
+    concat (bp_chunks bs xs) = xs /\
+    Forall (fun c => c <> [] /\ nlen c <= ival bs) (bp_chunks bs xs) /\
+    fst (batch_process bs proc xs) =
+      match map_opt proc (bp_chunks bs xs) with Some parts => Some (concat parts) | None => None end /\
+    calls (snd (batch_process bs proc xs)) = upto_fail proc (bp_chunks bs xs) /\
+    (forall g : T -> option R, (forall c, proc c = map_opt g c) -> fst (batch_process bs proc xs) = map_opt g xs).
+Print Assumptions batch_process_is_concat.
+
+(* `buffered(max_concurrent)` of concurrent_with_yield / process_files_parallel, every schedule of start / completion / hand-over steps:
+   results leave the window in input order whatever the completion order, every operation is started at most once, at most
+   max_concurrent operations hold a slot; the call returns map-in-input-order (Err if some operation fails); an unfinished state is never stuck *)
+Theorem buffered_order :
+  forall (n maxc : nat) (sch : list bstep),
+    let b := b_run n maxc b_init sch in
+    b_out b = seq 0 (length (b_out b)) /\
+    map fst (b_win b) = seq (length (b_out b)) (length (b_win b)) /\
+    (b_next b = length (b_out b) + length (b_win b))%nat /\ (b_next b <= n)%nat /\
+    (length (b_win b) <= maxc)%nat /\
+    (forall (R : Type) (res : nat -> option R) r, buffered_result res n b = Some r -> r = map_opt res (seq 0 n)) /\
+    (forall (R : Type) (res : nat -> option R) (g : nat -> R) r,
+        buffered_result res n b = Some r -> (forall i, (i < n)%nat -> res i = Some (g i)) -> r = Some (map g (seq 0 n))) /\
+    (forall (R : Type) (res : nat -> option R) i r,
+        buffered_result res n b = Some r -> (i < n)%nat -> res i = None -> r = None) /\
+    ((1 <= maxc)%nat -> b_finished n b = false -> exists s, b_step n maxc b s <> b).
+Proof. exact buffered_order_proof. Qed.
+Check buffered_order :
+  forall (n maxc : nat) (sch : list bstep),
+    let b := b_run n maxc b_init sch in
+    b_out b = seq 0 (length (b_out b)) /\
+    map fst (b_win b) = seq (length (b_out b)) (length (b_win b)) /\
+    (b_next b = length (b_out b) + length (b_win b))%nat /\ (b_next b <= n)%nat /\
+    (length (b_win b) <= maxc)%nat /\
+    (forall (R : Type) (res : nat -> option R) r, buffered_result res n b = Some r -> r = map_opt res (seq 0 n)) /\
+    (forall (R : Type) (res : nat -> option R) (g : nat -> R) r,
+        buffered_result res n b = Some r -> (forall i, (i < n)%nat -> res i = Some (g i)) -> r = Some (map g (seq 0 n))) /\
+    (forall (R : Type) (res : nat -> option R) i r,
+        buffered_result res n b = Some r -> (i < n)%nat -> res i = None -> r = None) /\
+    ((1 <= maxc)%nat -> b_finished n b = false -> exists s, b_step n maxc b s <> b).
+Print Assumptions buffered_order.
+
+(* the settled states in which the harness cases of the buffered window are evaluated (all that can happen once a set of gates is
+   open has happened) are runs of the step relation: buffered_order holds for them *)
+Theorem buffered_settle_is_schedule :
+  forall (fuel n maxc : nat) (open : nat -> bool) (b : buf),
+    exists sch, b_settle fuel n maxc open b = b_run n maxc b sch.
+Proof. exact b_settle_is_run_proof. Qed.
+Check buffered_settle_is_schedule :
+  forall (fuel n maxc : nat) (open : nat -> bool) (b : buf),
+    exists sch, b_settle fuel n maxc open b = b_run n maxc b sch.
+Print Assumptions buffered_settle_is_schedule.
+
+(* the stages' own process_batch (trait default for MapStage / FilterStage / BatchMapStage without batch function; BatchMapStage
+   with one): one result per input in input order or Err at the first failing item, nothing called after it, no suspension of its
+   own; FilterStage keeps one entry per input (a rejected item is None in its place, nothing shifts) *)
+Theorem stage_process_batch_is_map :
+  forall (T R : Type) (f : T -> option R) (xs : list T),
+    (fst (stage_batch_default f xs) = map_opt f xs /\
+     calls (snd (stage_batch_default f xs)) = upto_fail f xs /\ yields (snd (stage_batch_default f xs)) = 0) /\
+    (forall p : T -> bool,
+       fst (stage_batch_default (filter_process p) xs) = Some (map (fun x => if p x then Some x else None) xs) /\
+       calls (snd (stage_batch_default (filter_process p) xs)) = xs) /\
+    (forall (bf : list T -> option (list R)), (forall c, bf c = map_opt f c) ->
+       fst (stage_batch_func bf xs) = map_opt f xs /\ calls (snd (stage_batch_func bf xs)) = [xs]) /\
+    (forall l, map_opt f xs = Some l -> length l = length xs).
+Proof. exact stage_process_batch_is_map_proof. Qed.
+Check stage_process_batch_is_map :
+  forall (T R : Type) (f : T -> option R) (xs : list T),
+    (fst (stage_batch_default f xs) = map_opt f xs /\
+     calls (snd (stage_batch_default f xs)) = upto_fail f xs /\ yields (snd (stage_batch_default f xs)) = 0) /\
+    (forall p : T -> bool,
+       fst (stage_batch_default (filter_process p) xs) = Some (map (fun x => if p x then Some x else None) xs) /\
+       calls (snd (stage_batch_default (filter_process p) xs)) = xs) /\
+    (forall (bf : list T -> option (list R)), (forall c, bf c = map_opt f c) ->
+       fst (stage_batch_func bf xs) = map_opt f xs /\ calls (snd (stage_batch_func bf xs)) = [xs]) /\
+    (forall l, map_opt f xs = Some l -> length l = length xs).
+Print Assumptions stage_process_batch_is_map.
+
+(* AsyncMemoryBlobStore (and the trait's default batch operations): in every state in which no id at or beyond next_id is in use and
+   fewer than 2^32 ids have been handed out, get_batch(put_batch(ds)) = ds - one id per blob in input order, pairwise distinct, none of
+   them in use before, every older record unchanged *)
+Theorem blob_batch_roundtrip :
+  forall (s : mstore) (ds : list blob), bounded s -> ms_next s + nlen ds <= U32 ->
+    let '(s', ids) := ms_put_batch s ds in
+    ms_get_batch s' ids = Some ds /\ length ids = length ds /\ NoDup ids /\
+    (forall id, In id ids -> ms_get s id = None /\ id < U32) /\
+    (forall id, id < ms_next s -> ms_get s' id = ms_get s id) /\
+    bounded s' /\ ms_next s' = ms_next s + nlen ds.
+Proof. exact blob_batch_roundtrip_proof. Qed.
+Check blob_batch_roundtrip :
+  forall (s : mstore) (ds : list blob), bounded s -> ms_next s + nlen ds <= U32 ->
+    let '(s', ids) := ms_put_batch s ds in
+    ms_get_batch s' ids = Some ds /\ length ids = length ds /\ NoDup ids /\
+    (forall id, In id ids -> ms_get s id = None /\ id < U32) /\
+    (forall id, id < ms_next s -> ms_get s' id = ms_get s id) /\
+    bounded s' /\ ms_next s' = ms_next s + nlen ds.
+Print Assumptions blob_batch_roundtrip.
+
+(* the state invariant holds for the new store and is kept by put / remove (put_batch: above), so it holds after every history;
+   put then get returns the blob under a fresh id, remove fails exactly on an absent id, get_batch is the lookups in order and Err iff
+   one id is missing *)
+Theorem store_ops :
+  bounded ms_new /\
+  (forall s d, bounded s -> ms_next s < U32 ->
+     bounded (fst (ms_put s d)) /\ ms_get (fst (ms_put s d)) (snd (ms_put s d)) = Some d /\ ms_get s (snd (ms_put s d)) = None /\
+     (forall id, id <> snd (ms_put s d) -> ms_get (fst (ms_put s d)) id = ms_get s id)) /\
+  (forall s id, bounded s ->
+     bounded (fst (ms_remove s id)) /\ ms_get (fst (ms_remove s id)) id = None /\
+     (forall id', id' <> id -> ms_get (fst (ms_remove s id)) id' = ms_get s id') /\
+     (snd (ms_remove s id) = true <-> ms_get s id <> None)) /\
+  (forall s ids (g : N -> blob), (forall id, In id ids -> ms_get s id = Some (g id)) -> ms_get_batch s ids = Some (map g ids)) /\
+  (forall s ids id, In id ids -> ms_get s id = None -> ms_get_batch s ids = None).
+Proof. exact store_ops_proof. Qed.
+Check store_ops :
+  bounded ms_new /\
+  (forall s d, bounded s -> ms_next s < U32 ->
+     bounded (fst (ms_put s d)) /\ ms_get (fst (ms_put s d)) (snd (ms_put s d)) = Some d /\ ms_get s (snd (ms_put s d)) = None /\
+     (forall id, id <> snd (ms_put s d) -> ms_get (fst (ms_put s d)) id = ms_get s id)) /\
+  (forall s id, bounded s ->
+     bounded (fst (ms_remove s id)) /\ ms_get (fst (ms_remove s id)) id = None /\
+     (forall id', id' <> id -> ms_get (fst (ms_remove s id)) id' = ms_get s id') /\
+     (snd (ms_remove s id) = true <-> ms_get s id <> None)) /\
+  (forall s ids (g : N -> blob), (forall id, In id ids -> ms_get s id = Some (g id)) -> ms_get_batch s ids = Some (map g ids)) /\
+  (forall s ids id, In id ids -> ms_get s id = None -> ms_get_batch s ids = None).
+Print Assumptions store_ops.
+
+(* shutdown() and submit() after it, every history of executor steps and shutdowns: queued + running + executed stays exactly the
+   multiset of accepted tasks, every accepted task was submitted before the first shutdown, and any number of submissions after a
+   shutdown are refused without touching the executor (no task is accepted into a queue that no worker will poll) *)
+Theorem shutdown_refuses :
+  forall fixed cap nw h e down acc,
+    l_run fixed cap (init nw) false [] h = (e, down, acc) ->
+    Permutation (queued e ++ running e ++ edone e) acc /\
+    (forall t, In t acc -> In t (submitted_before h)) /\
+    down = has_shutdown h /\
+    (forall e0 acc0 h', l_run fixed cap e0 true acc0 (map (fun t => LS (Submit t)) h') = (e0, true, acc0)).
+Proof. exact shutdown_refuses_proof. Qed.
+Check shutdown_refuses :
+  forall fixed cap nw h e down acc,
+    l_run fixed cap (init nw) false [] h = (e, down, acc) ->
+    Permutation (queued e ++ running e ++ edone e) acc /\
+    (forall t, In t acc -> In t (submitted_before h)) /\
+    down = has_shutdown h /\
+    (forall e0 acc0 h', l_run fixed cap e0 true acc0 (map (fun t => LS (Submit t)) h') = (e0, true, acc0)).
+Print Assumptions shutdown_refuses.
+
+(* every history of yield_now / force_yield / reset on one FiberYield: the u8 budget stays within [0, initial_budget] (the decrement is
+   guarded, the exhausted budget is refilled by force_yield) and total_yields is the number of yield operations since the last reset *)
+Theorem yield_budget_history :
+  forall (init : N) (ops : list Z) (y : fy), fy_budget y <= init ->
+    fy_budget (fold_left (fy_apply init) ops y) <= init /\
+    fy_total (fold_left (fy_apply init) ops y) = yields_since (fy_total y) ops.
+Proof. exact yield_budget_history_proof. Qed.
+Check yield_budget_history :
+  forall (init : N) (ops : list Z) (y : fy), fy_budget y <= init ->
+    fy_budget (fold_left (fy_apply init) ops y) <= init /\
+    fy_total (fold_left (fy_apply init) ops y) = yields_since (fy_total y) ops.
+Print Assumptions yield_budget_history.
